@@ -18,6 +18,10 @@ func c09MakeLen(m *pbfModel, e ast.Expr, seen map[types.Object]bool) (int64, boo
 	if call, ok := e.(*ast.CallExpr); ok && builtinName(m.info, call) == "make" && len(call.Args) == 2 {
 		return constInt(m.info, call.Args[1])
 	}
+	if f := fieldOf(m.info, e); f != nil {
+		// a buffer kept in a struct field: every initialisation of the field in the package is a make of that length
+		return c09FieldMakeLen(m, f)
+	}
 	o := objOf(m.info, e)
 	if o == nil || seen[o] {
 		return 0, false
@@ -128,6 +132,10 @@ func c09B1(r *core.R) {
 			} else {
 				okLens = false
 			}
+		} else if v, ok := c09MakeLen(m, rd.buf, map[types.Object]bool{}); ok {
+			// a buffer kept in a struct field (scratch buffers grouped in a struct)
+			wantConst += v
+			lenDesc = fmt.Sprintf("%d (its make)", v)
 		} else {
 			okLens = false
 		}
@@ -260,4 +268,46 @@ func c09B1(r *core.R) {
 	default:
 		r.OK(c, inc.Pos(), "`%s` = %d (constant buffer lengths, fixed by their make) + %s, on every path after all %d reads, exactly on the success returns", src(r.P.Fset, inc), wantConst, strings.Join(want, " + "), len(reads))
 	}
+}
+
+// c09FieldMakeLen: every value given to struct field f in the package (composite literal element or assignment other
+// than a re-slice of itself) is `make([]byte, K)` with one constant K.
+func c09FieldMakeLen(m *pbfModel, f *types.Var) (int64, bool) {
+	var k int64 = -1
+	ok := true
+	note := func(e ast.Expr) {
+		call, isCall := ast.Unparen(e).(*ast.CallExpr)
+		if !isCall || builtinName(m.info, call) != "make" || len(call.Args) != 2 {
+			ok = false
+			return
+		}
+		v, isConst := constInt(m.info, call.Args[1])
+		if !isConst || (k >= 0 && k != v) {
+			ok = false
+			return
+		}
+		k = v
+	}
+	for _, fi := range m.funcs {
+		ast.Inspect(fi.Decl.Body, func(n ast.Node) bool {
+			switch x := n.(type) {
+			case *ast.KeyValueExpr:
+				if id, isID := x.Key.(*ast.Ident); isID && m.info.Uses[id] == f {
+					note(x.Value)
+				}
+			case *ast.AssignStmt:
+				for i, l := range x.Lhs {
+					if fieldOf(m.info, l) == f {
+						if len(x.Lhs) != len(x.Rhs) {
+							ok = false
+						} else {
+							note(x.Rhs[i]) // (a re-slice of the field is not a make: the length is then not constant)
+						}
+					}
+				}
+			}
+			return true
+		})
+	}
+	return k, ok && k >= 0
 }
